@@ -454,6 +454,9 @@ class TaskState:
         if kind == "cli":
             from .stream_ops import run_cli
             return run_cli(self, op)
+        if kind == "tokcli":
+            from .stream_ops import run_tokcli
+            return run_tokcli(self, op)
         raise HarnessError("unknown op " + repr(kind))
 
 
@@ -518,6 +521,20 @@ class Run:
                 self.violation("C15-pure", ts.ti, oi, rec.get("arg_diff") or "$", None, None)
             elif "pure" in self.oracles and rec.get("modified_during"):
                 self.violation("C15-pure", ts.ti, oi, "$during", "document unchanged at every id draw inside compile()", "document differed from its snapshot while compile() was running (restored afterwards)")
+        if kind == "tokcli" and "alone" in self.oracles:
+            exp, died = [], None
+            for path in op["argv"]:
+                text = seams.cur_fs().files.get(path, b"").decode("utf-8")
+                r = ALONE.parse(text, None, "tok", False, "path")
+                if r["kind"] != "tokens":
+                    died = r["kind"]
+                    break
+                exp.append(r["norm"])
+            want = "".join(x + "\n" for x in exp)
+            if rec["stdout"] != want:
+                self.violation(self.spec.get("prop", "C15") + "-alone", ts.ti, oi, first_diff(want.split("\n"), rec["stdout"].split("\n"), "$stdout.lines") or "$stdout", want, rec["stdout"])
+            elif (died is None) != (rec["error"] is None):
+                self.violation(self.spec.get("prop", "C15") + "-alone", ts.ti, oi, "$exit", "error: %s" % died, "error: %s" % (rec["error"],))
         if "offset" in self.oracles:
             self.check_offset(ts, oi, op, rec)
         if "stable" in self.oracles:
@@ -575,6 +592,9 @@ class Run:
                     total += ALONE.parse(op["text"], ts.spec["matchers"][op["m"]] if op.get("m") is not None else None,
                                          ts.spec["parsers"][op["p"]]["b"], op.get("first", False),
                                          "path" if op.get("src") == "path" else "text")["toks"] + 2
+                elif op["op"] == "tokcli":
+                    for path in op["argv"]:
+                        total += ALONE.parse(seams.cur_fs().files.get(path, b"").decode("utf-8"), None, "tok", False, "path")["toks"] + 2
                 elif op["op"] in ("stream", "cli"):
                     from .stream_ops import estimate_stream_steps
                     total += estimate_stream_steps(self, ts, op)
